@@ -63,7 +63,7 @@ def handler(run):
                                                                        z3.BoolVal(od.dtype == sd.dtype)), "property", inst, replay=rp)
             ss, os_ = src.fields["_scale"], out.fields["_scale"]
             jds, jnb = idx_vars("n", ss.shape)
-            want_dt = kwargs.get("dtype").name if kwargs.get("dtype") is not None else ss.dtype
+            want_dt = kwargs.get("dtype").name if kwargs.get("dtype") is not None else (h.dtype if cs["op"] == "copy_" else ss.dtype)
             run.add(f"C06/move-keeps-scale-values-and-sets-dtype[{tag}]", r.hyps + jnb,
                     z3.And(os_.elem(jds) == ss.elem(jds), lib.shape_eq(os_.shape, ss.shape), z3.BoolVal(os_.dtype == want_dt and out.fields["_w_dtype"].name == want_dt)),
                     "property", inst, replay=rp)
@@ -300,6 +300,7 @@ def replay(model, seed, case, inst):
         "detach": lambda: [qa.detach()], "to_copy-dtype": lambda: [qa.to(torch.float16)], "div-scalar": lambda: [qa / 2.0], "mul-scalar-q": lambda: [3.0 * qa],
         "_softmax": lambda: [torch.softmax(qa, -1)], "where-q-plain": lambda: [torch.where(x > 0, qa, torch.full_like(x, 0.25))],
         "where-q-scalar": lambda: [torch.where(x > 0, qa, 0.25)],
+        "copy_-q-from-q-other-dtype": lambda: [qa.copy_(Q(x.to(torch.float16) * 2, qt, axis))],
         "neg": lambda: [-qa], "relu": lambda: [torch.relu(qa)], "cat-same-scale": lambda: [torch.cat([qa, qa])], "stack-same-scale": lambda: [torch.stack([qa, qa])],
     }
     f = progs.get(case)
